@@ -181,41 +181,102 @@ theorem Match.from {tmpl : Term} {max : Nat} {prog : List Term} {lv : Lv} {ans0 
 theorem stOK_tick {prog : List Term} {m : MS} (h : StOK prog m) : StOK prog (tick m) := h
 theorem stOK_bump {prog : List Term} {m : MS} (h : StOK prog m) (N' : Nat) : StOK prog (bump m N') := h
 
-def TPk (tmpl : Term) (max : Nat) (prog : List Term) (F k : Nat) : Prop :=
+/-! ### the thunks the search evaluates -/
+
+mutual
+  /-- the search below `p` (fuel `k`, path `live`, state `m`) evaluates the thunk `x` in state `mx` -/
+  inductive VisP {τ ρ ε σ : Type} (sem : Sem τ ρ ε σ) (tf : Nat) :
+      Nat → P τ ρ ε → List Nat → M σ → τ → M σ → Prop
+    | nocut {k : Nat} {p : P τ ρ ε} {live : List Nat} {m : M σ} {t : τ} {ts : List τ} {x : τ} {mx : M σ} :
+        p.delayed = t :: ts → ¬ (p.id ≠ 0 ∧ live.contains p.id) → p.cutParent = none →
+        VisA sem tf k t (afterChild { p with cutParent := none }) live (tick m) x mx →
+        VisP sem tf (k + 1) p live m x mx
+    | cut {k : Nat} {p : P τ ρ ε} {live : List Nat} {m : M σ} {t : τ} {ts : List τ} {c : Nat} {x : τ} {mx : M σ} :
+        p.delayed = t :: ts → ¬ (p.id ≠ 0 ∧ live.contains p.id) → p.cutParent = some c →
+        live.contains c = true →
+        VisA sem tf k t (afterChild { p with cutParent := none }) (live.dropWhile (· ≠ c)) (tick m) x mx →
+        VisP sem tf (k + 1) p live m x mx
+  /-- the search of the alternatives `t`, then `f`, evaluates the thunk `x` in state `mx` -/
+  inductive VisA {τ ρ ε σ : Type} (sem : Sem τ ρ ε σ) (tf : Nat) :
+      Nat → τ → P τ ρ ε → List Nat → M σ → τ → M σ → Prop
+    | here {k : Nat} {t : τ} {f : P τ ρ ε} {live : List Nat} {m : M σ} : VisA sem tf (k + 1) t f live m t m
+    | child {k : Nat} {t : τ} {f : P τ ρ ε} {live : List Nat} {m : M σ} {q : P τ ρ ε} {m1 : M σ} {x : τ} {mx : M σ} :
+        sem.evalThunk tf t m = some (q, m1) → VisP sem tf k q (push f.id live) m1 x mx →
+        VisA sem tf (k + 1) t f live m x mx
+    | next {k : Nat} {t : τ} {f : P τ ρ ε} {live : List Nat} {m : M σ} {q : P τ ρ ε} {m1 m2 : M σ} {x : τ} {mx : M σ} :
+        sem.evalThunk tf t m = some (q, m1) →
+        dfsP sem tf k q (push f.id live) m1 = some (.exhausted none, m2) →
+        VisP sem tf k f live m2 x mx →
+        VisA sem tf (k + 1) t f live m x mx
+end
+
+/-- the side condition on one thunk evaluation (`fl = true`: `call/1` is in the fragment): if it ends
+    in `call(G)`, then `G` is — as far as the model's inner fuel dereferences it — a variable or a
+    body of the fragment (`ResFine`) -/
+def Good (fl : Bool) (F : Nat) (t : Thunk) (m : MS) : Prop :=
+  fl = true → ∀ res, evalThunk F t m = some res → ResFine fl res
+
+def GoodP (fl : Bool) (F k : Nat) (p : Pr) (live : List Nat) (m : MS) : Prop :=
+  ∀ x mx, VisP (VM.sem F) 0 k p live m x mx → Good fl F x mx
+
+def GoodA (fl : Bool) (F k : Nat) (t : Thunk) (f : Pr) (live : List Nat) (m : MS) : Prop :=
+  ∀ x mx, VisA (VM.sem F) 0 k t f live m x mx → Good fl F x mx
+
+def TPk (fl : Bool) (tmpl : Term) (max : Nat) (prog : List Term) (F k : Nat) : Prop :=
   ∀ (p : Pr) (lv : Lv) (m : MS) (sig : SigG Err) (m' : MS),
     dfsP (VM.sem F) 0 k p (lv.map Prod.fst) m = some (sig, m') →
-    ∀ (d : Nat) (ans0 : List Term) (r : SLD.Res), PSpec tmpl max prog lv d p m ans0 r → LvOK lv d →
+    GoodP fl F k p (lv.map Prod.fst) m →
+    ∀ (d : Nat) (ans0 : List Term) (r : SLD.Res), PSpec fl tmpl max prog lv d p m ans0 r → LvOK lv d →
       StOK prog m → ans0.length < max →
       sig = .illScoped ∨ Match tmpl max prog lv ans0 m m' sig r
 
 /-- the thunk of the clause `c` first, then the frame with the thunks of `cs` -/
-def TAk (tmpl : Term) (max : Nat) (prog : List Term) (F k : Nat) : Prop :=
+def TAk (fl : Bool) (tmpl : Term) (max : Nat) (prog : List Term) (F k : Nat) : Prop :=
   ∀ (c : Term) (cs : List Term) (id : Nat) (g g2 : Term) (K : Cont) (env : Env) (R : List SLD.Frame) (q : Term)
     (nv n d : Nat) (r : SLD.Res) (lv : Lv) (m : MS) (sig : SigG Err) (m' : MS) (ans0 : List Term),
     dfsAlts (VM.sem F) 0 k (Thunk.clause (clauseOf c) (argList g) K env id)
       { id := id, delayed := cs.map (fun c => Thunk.clause (clauseOf c) (argList g) K env id) }
       (lv.map Prod.fst) m = some (sig, m') →
+    GoodA fl F k (Thunk.clause (clauseOf c) (argList g) K env id)
+      { id := id, delayed := cs.map (fun c => Thunk.clause (clauseOf c) (argList g) K env id) }
+      (lv.map Prod.fst) m →
     m.user.answers = ans0 → id ≠ 0 → id ∉ lv.map Prod.fst →
-    (∀ c' ∈ c :: cs, clauseOK c' = true ∧ headKey c' = (functorName g, (argList g).length)) →
+    (∀ c' ∈ c :: cs, clauseS fl c' = true ∧ headKey c' = (functorName g, (argList g).length)) →
     Shape g →
-    SimAt tmpl max lv K env m.user.nextVar R q nv (fun σ π D => InD D g ∧ g2 = img σ π g) →
+    SimAt fl tmpl max lv K env m.user.nextVar R q nv (fun σ π D => InD D g ∧ g2 = img σ π g) →
     SLD.solveAlts false (progS prog) n d nv ((c :: cs).map (fun c => .clause g2 (ruleOf c))) R q (max - ans0.length) = some r →
     LvOK lv d → StOK prog m → ans0.length < max →
     sig = .illScoped ∨ Match tmpl max prog lv ans0 m m' sig r
 
 /-- the thunk of the bootstrap clause `true.`, then the empty frame -/
-def TDk (tmpl : Term) (max : Nat) (prog : List Term) (F k : Nat) : Prop :=
+def TDk (fl : Bool) (tmpl : Term) (max : Nat) (prog : List Term) (F k : Nat) : Prop :=
   ∀ (ct : Clause) (id : Nat) (K : Cont) (env : Env) (R : List SLD.Frame) (q : Term)
     (nv n d : Nat) (r : SLD.Res) (lv : Lv) (m : MS) (sig : SigG Err) (m' : MS) (ans0 : List Term),
     dfsAlts (VM.sem F) 0 k (Thunk.clause ct [] K env id) { id := id, delayed := [] } (lv.map Prod.fst) m = some (sig, m') →
+    GoodA fl F k (Thunk.clause ct [] K env id) { id := id, delayed := [] } (lv.map Prod.fst) m →
     m.user.answers = ans0 → id ≠ 0 → id ∉ lv.map Prod.fst → ct.code = [.exit] → ct.vars = [] →
-    SimAt tmpl max lv K env m.user.nextVar R q nv (fun _ _ _ => True) →
+    SimAt fl tmpl max lv K env m.user.nextVar R q nv (fun _ _ _ => True) →
     SLD.solve false (progS prog) n d nv R q (max - ans0.length) = some r →
     LvOK lv d → StOK prog m → ans0.length < max →
     sig = .illScoped ∨ Match tmpl max prog lv ans0 m m' sig r
 
+/-- the thunk of the clause compiled by `call/1` for the goal `g'`, then the empty frame -/
+def TCk (fl : Bool) (tmpl : Term) (max : Nat) (prog : List Term) (F k : Nat) : Prop :=
+  ∀ (g' c : Term) (id : Nat) (K : Cont) (env : Env) (R : List SLD.Frame) (q : Term)
+    (nv n d : Nat) (r : SLD.Res) (lv : Lv) (m : MS) (sig : SigG Err) (m' : MS) (ans0 : List Term),
+    dfsAlts (VM.sem F) 0 k (Thunk.clause (clauseOf (qClause g')) (argList (qHead g')) K env id)
+      { id := id, delayed := [] } (lv.map Prod.fst) m = some (sig, m') →
+    GoodA fl F k (Thunk.clause (clauseOf (qClause g')) (argList (qHead g')) K env id)
+      { id := id, delayed := [] } (lv.map Prod.fst) m →
+    m.user.answers = ans0 → id ≠ 0 → id ∉ lv.map Prod.fst → wfT g' = true → bodyS fl g' = true →
+    SimAt fl tmpl max lv K env m.user.nextVar R q nv
+      (fun σ π D => (∀ v, g'.hasVar v = true → RV σ D v) ∧ c = g'.rename π) →
+    SLD.solveAlts false (progS prog) n d nv [.frames (SLD.bodyFrames false c d)] R q (max - ans0.length) = some r →
+    LvOK lv d → StOK prog m → ans0.length < max →
+    sig = .illScoped ∨ Match tmpl max prog lv ans0 m m' sig r
+
 section
-variable {tmpl : Term} {max : Nat} {prog : List Term} {F : Nat}
+variable {fl : Bool} {tmpl : Term} {max : Nat} {prog : List Term} {F : Nat}
 
 theorem leaf_ok' {k : Nat} {p : Pr} {live : List Nat} {m : MS} (hd : p.delayed = []) (he : p.err = none) :
     dfsP (VM.sem F) 0 (k + 1) p live m = some (if p.ok then .found else .exhausted none, tick m) :=
@@ -298,7 +359,7 @@ theorem cutsOK_ext {lv lv1 : Lv} (hext : ∀ c l, lv.lev c = some l → lv1.lev 
 theorem simAt_ext {lv lv1 : Lv} (hext : ∀ c l, lv.lev c = some l → lv1.lev c = some l)
     {K : Cont} {env : Env} {nvar : Nat} {R : List SLD.Frame} {q : Term} {nv : Nat}
     {P : Subst → (Nat → Nat) → (Nat → Prop) → Prop}
-    (h : SimAt tmpl max lv K env nvar R q nv P) : SimAt tmpl max lv1 K env nvar R q nv P := by
+    (h : SimAt fl tmpl max lv K env nvar R q nv P) : SimAt fl tmpl max lv1 K env nvar R q nv P := by
   obtain ⟨N, σ, π, D, G, h1, h2, h3, h4, h5, h6⟩ := h
   exact ⟨N, σ, π, D, G, h1, h2, h3, grel_ext hext h4, cutsOK_ext hext h5, h6⟩
 
@@ -313,16 +374,17 @@ theorem hext_push {lv : Lv} {id : Nat} (o : Option Nat) (hn : id ∉ lv.map Prod
 theorem absorb_found (id : Nat) (m : MS) : absorb id (SigG.found : SigG Err) m = (.found, m) := rfl
 
 /-- the search below a promise that came out of a thunk, then the frame that stayed behind -/
-theorem after_child {k : Nat} (ihP : TPk tmpl max prog F k) {t : Thunk} {f q0 : Pr} {lv lv1 : Lv} {d1 : Nat}
+theorem after_child {k : Nat} (ihP : TPk fl tmpl max prog F k) {t : Thunk} {f q0 : Pr} {lv lv1 : Lv} {d1 : Nat}
     {m m1 : MS} {sig : SigG Err} {m' : MS} {ans0 : List Term} {r1 : SLD.Res}
     (hda : dfsAlts (VM.sem F) 0 (k + 1) t f (lv.map Prod.fst) m = some (sig, m'))
+    (hgood : GoodA fl F (k + 1) t f (lv.map Prod.fst) m)
     (hev : (VM.sem F).evalThunk 0 t m = some (q0, m1))
     (hlv1 : lv1.map Prod.fst = push f.id (lv.map Prod.fst))
-    (hspec : PSpec tmpl max prog lv1 d1 q0 m1 ans0 r1) (hok1 : LvOK lv1 d1) (hst1 : StOK prog m1)
+    (hspec : PSpec fl tmpl max prog lv1 d1 q0 m1 ans0 r1) (hok1 : LvOK lv1 d1) (hst1 : StOK prog m1)
     (hlt : ans0.length < max) (hrec : f.recover = none) :
     sig = .illScoped ∨
     (∃ m2, Match tmpl max prog lv1 ans0 m1 m2 (.exhausted none) r1 ∧
-      dfsP (VM.sem F) 0 k f (lv.map Prod.fst) m2 = some (sig, m')) ∨
+      dfsP (VM.sem F) 0 k f (lv.map Prod.fst) m2 = some (sig, m') ∧ GoodP fl F k f (lv.map Prod.fst) m2) ∨
     (∃ sig1 m2, Match tmpl max prog lv1 ans0 m1 m2 sig1 r1 ∧ sig1 ≠ .exhausted none ∧
       (sig, m') = absorb f.id sig1 m2) := by
   cases hq : dfsP (VM.sem F) 0 k q0 (push f.id (lv.map Prod.fst)) m1 with
@@ -331,7 +393,11 @@ theorem after_child {k : Nat} (ihP : TPk tmpl max prog F k) {t : Thunk} {f q0 : 
     obtain ⟨sig1, m2⟩ := pr2
     have hq' := hq
     rw [← hlv1] at hq'
-    rcases ihP q0 lv1 m1 sig1 m2 hq' d1 ans0 r1 hspec hok1 hst1 hlt with hill | hm
+    have hgq : GoodP fl F k q0 (lv1.map Prod.fst) m1 := by
+      intro x mx hx
+      rw [hlv1] at hx
+      exact hgood x mx (.child hev hx)
+    rcases ihP q0 lv1 m1 sig1 m2 hq' hgq d1 ans0 r1 hspec hok1 hst1 hlt with hill | hm
     · subst hill
       rw [dfsAlts_pass hev hq (by simp) (by simp)] at hda
       simp only [absorb, Option.some.injEq, Prod.mk.injEq] at hda
@@ -348,7 +414,7 @@ theorem after_child {k : Nat} (ihP : TPk tmpl max prog F k) {t : Thunk} {f q0 : 
         cases co with
         | none =>
           rw [dfsAlts_exh hev hq] at hda
-          exact Or.inr (Or.inl ⟨m2, hm, hda⟩)
+          exact Or.inr (Or.inl ⟨m2, hm, hda, fun x mx hx => hgood x mx (.next hev hq hx)⟩)
         | some c =>
           rw [dfsAlts_pass hev hq (by simp) (by simp)] at hda
           exact Or.inr (Or.inr ⟨_, m2, hm, by simp, (Option.some.inj hda).symm⟩)
@@ -378,9 +444,9 @@ theorem absorb_cut_eq (id : Nat) (m : MS) :
     absorb id (SigG.exhausted (some id) : SigG Err) m = (.exhausted none, tick m) := by
   simp [absorb]
 
-theorem td_succ {k : Nat} (ihP : TPk tmpl max prog F k) (hprog : ∀ c ∈ prog, clauseOK c = true) :
-    TDk tmpl max prog F (k + 1) := by
-  intro ct id K env R q nv n d r lv m sig m' ans0 hda hans hid0 hidn hcode hvars hsim hs hok hst hlt
+theorem td_succ {k : Nat} (ihP : TPk fl tmpl max prog F k) (hprog : ∀ c ∈ prog, clauseS fl c = true) :
+    TDk fl tmpl max prog F (k + 1) := by
+  intro ct id K env R q nv n d r lv m sig m' ans0 hda hgood hans hid0 hidn hcode hvars hsim hs hok hst hlt
   cases hev : evalThunk F (Thunk.clause ct [] K env id) m with
   | none => rw [dfsAlts_thunk_none (sem := VM.sem F) (by exact hev)] at hda; cases hda
   | some pr =>
@@ -399,13 +465,14 @@ theorem td_succ {k : Nat} (ihP : TPk tmpl max prog F k) (hprog : ∀ c ∈ prog,
     obtain ⟨fuel, hcont⟩ := hcont
     subst hans
     have hext := hext_push (lv := lv) (id := id) none hidn
-    obtain ⟨hspec, hst1, hnv1⟩ := cont_run tmpl max prog hprog fuel K env m q0 m1 hcont ((id, none) :: lv) R q nv
+    obtain ⟨hspec, hst1, hnv1⟩ := cont_run tmpl max prog hprog fuel K env m q0 m1 hcont
+      (fun hfl => hgood _ _ .here hfl _ hev) ((id, none) :: lv) R q nv
       (simAt_ext hext hsim) hst n d r hs
     have hlv1 : ((id, (none : Option Nat)) :: lv).map Prod.fst =
         push ({ id := id, delayed := [] } : Pr).id (lv.map Prod.fst) := by
       simp [push, hid0]
-    rcases after_child ihP hda (by exact hev) hlv1 hspec (hok.pushNone hid0 hidn) hst1 hlt rfl with
-      hill | ⟨m2, hm, hf⟩ | ⟨sig1, m2, hm, hne, hres⟩
+    rcases after_child ihP hda hgood (by exact hev) hlv1 hspec (hok.pushNone hid0 hidn) hst1 hlt rfl with
+      hill | ⟨m2, hm, hf, _⟩ | ⟨sig1, m2, hm, hne, hres⟩
     · exact Or.inl hill
     · -- the empty frame: exhausted
       right
@@ -444,9 +511,9 @@ theorem td_succ {k : Nat} (ihP : TPk tmpl max prog F k) (hprog : ∀ c ∈ prog,
         obtain ⟨rfl, rfl⟩ := hres
         exact ⟨hm.ans, Or.inr (Or.inr (Or.inr ⟨F', c1, c2, ex, co', rfl, h2⟩)), hm.st, Nat.le_trans hnv1 hm.nvar⟩
 
-theorem ta_succ {k : Nat} (ihP : TPk tmpl max prog F k) (hprog : ∀ c ∈ prog, clauseOK c = true) :
-    TAk tmpl max prog F (k + 1) := by
-  intro c cs id g g2 K env R q nv n d r lv m sig m' ans0 hda hans hid0 hidn hcs hshape hsim hs hok hst hlt
+theorem ta_succ {k : Nat} (ihP : TPk fl tmpl max prog F k) (hprog : ∀ c ∈ prog, clauseS fl c = true) :
+    TAk fl tmpl max prog F (k + 1) := by
+  intro c cs id g g2 K env R q nv n d r lv m sig m' ans0 hda hgood hans hid0 hidn hcs hshape hsim hs hok hst hlt
   cases n with
   | zero => rw [solveAlts_zero] at hs; cases hs
   | succ n' =>
@@ -469,7 +536,7 @@ theorem ta_succ {k : Nat} (ihP : TPk tmpl max prog F k) (hprog : ∀ c ∈ prog,
   -- the remaining alternatives, from a later state
   have hrest : ∀ (m2 : MS) (r' : SLD.Res) (ans1 : List Term), m2.user.answers = ans1 → m.user.nextVar ≤ m2.user.nextVar →
       SLD.solveAlts false (progS prog) n' d nv (cs.map (fun c => .clause (img σ π g) (ruleOf c))) R q (max - ans1.length) = some r' →
-      PSpec tmpl max prog lv d { id := id, delayed := cs.map (fun c => Thunk.clause (clauseOf c) (argList g) K env id) } m2 ans1 r' := by
+      PSpec fl tmpl max prog lv d { id := id, delayed := cs.map (fun c => Thunk.clause (clauseOf c) (argList g) K env id) } m2 ans1 r' := by
     intro m2 r' ans1 h1 h2 h3
     exact .alts h1 hid0 (fun c' hc' => hcs c' (by simp [hc'])) hshape (hsim0.mono h2) h3
   have hlv1 : ((id, some d) :: lv).map Prod.fst =
@@ -501,7 +568,8 @@ theorem ta_succ {k : Nat} (ihP : TPk tmpl max prog F k) (hprog : ∀ c ∈ prog,
           rw [leaf_ok' rfl rfl]; rfl
         rw [dfsAlts_exh (sem := VM.sem F) (by exact hev) hq] at hda
         subst hans
-        rcases ihP _ _ _ _ _ hda d m.user.answers r' (hrest (tick (bump m N')) r' _ rfl hN' hr') hok hst hlt with hill | hm
+        rcases ihP _ _ _ _ _ hda (fun x mx hx => hgood x mx (.next (by exact hev) hq hx))
+          d m.user.answers r' (hrest (tick (bump m N')) r' _ rfl hN' hr') hok hst hlt with hill | hm
         · exact Or.inl hill
         · exact Or.inr (hm.from hN')
     | occurs => rw [hr] at hs; simp at hs
@@ -556,7 +624,7 @@ theorem ta_succ {k : Nat} (ihP : TPk tmpl max prog F k) (hprog : ∀ c ∈ prog,
               simp only [Option.some.injEq] at hlb
               have := hok.lev_lt hl0
               omega
-        have hspec1 : PSpec tmpl max prog ((id, some d) :: lv) (d + 1) q0 m1 m.user.answers r1 ∧ StOK prog m1 ∧
+        have hspec1 : PSpec fl tmpl max prog ((id, some d) :: lv) (d + 1) q0 m1 m.user.answers r1 ∧ StOK prog m1 ∧
             N' ≤ m1.user.nextVar := by
           rcases hBs with hBs | ⟨hBs, hb⟩
           · have hgr1 : GRel ((id, some d) :: lv) σ' π' D' (G1 ++ G)
@@ -565,7 +633,8 @@ theorem ta_succ {k : Nat} (ihP : TPk tmpl max prog F k) (hprog : ∀ c ∈ prog,
               refine Forall2.append ?_ hgrR
               simp only [SLD.bodyFrames, conjuncts_shift, hBs, Bool.false_eq_true, if_false, List.map_map]
               exact body_grel (lev_cons_self id (some d) lv) hbody
-            exact cont_run tmpl max prog hprog fuel' K1 env' (bump m N') q0 m1 hcont _ _ _ _
+            exact cont_run tmpl max prog hprog fuel' K1 env' (bump m N') q0 m1 hcont
+              (fun hfl => hgood _ _ .here hfl _ hev) _ _ _ _
               ⟨N', σ', π', D', G1 ++ G, Nat.le_refl _, hW', hcgK1 G hcg, hgr1, hcoAll, hq1, trivial⟩
               (stOK_bump hst N') n' (d + 1) r1 hs1
           · subst hBs
@@ -579,13 +648,14 @@ theorem ta_succ {k : Nat} (ihP : TPk tmpl max prog F k) (hprog : ∀ c ∈ prog,
             | zero => rw [solve_zero] at hs1; cases hs1
             | succ n'' =>
               rw [solve_true] at hs1
-              exact cont_run tmpl max prog hprog fuel' K1 env' (bump m N') q0 m1 hcont _ _ _ _
+              exact cont_run tmpl max prog hprog fuel' K1 env' (bump m N') q0 m1 hcont
+                (fun hfl => hgood _ _ .here hfl _ hev) _ _ _ _
                 ⟨N', σ', π', D', G, Nat.le_refl _, hW', by simpa using hcgK1 G hcg, hgrR, hcoG, hq1, trivial⟩
                 (stOK_bump hst N') n'' (d + 1) r1 hs1
         obtain ⟨hspec, hst1, hnv1⟩ := hspec1
         have hmm1 : m.user.nextVar ≤ m1.user.nextVar := Nat.le_trans hN' hnv1
-        rcases after_child ihP hda (by exact hev) hlv1 hspec hok1 hst1 hlt rfl with
-          hill | ⟨m2, hm, hf⟩ | ⟨sig1, m2, hm, hne, hresA⟩
+        rcases after_child ihP hda hgood (by exact hev) hlv1 hspec hok1 hst1 hlt rfl with
+          hill | ⟨m2, hm, hf, hgf⟩ | ⟨sig1, m2, hm, hne, hresA⟩
         · exact Or.inl hill
         · -- exhausted: the next alternatives
           rcases hm.stop with ⟨_, hstop, hlen⟩ | ⟨_, _, h1, _⟩ | ⟨h1, _⟩ | ⟨_, _, _, _, _, h1, _⟩
@@ -598,7 +668,7 @@ theorem ta_succ {k : Nat} (ihP : TPk tmpl max prog F k) (hprog : ∀ c ∈ prog,
             have hlim : max - m.user.answers.length - r1.answers.length = max - m2.user.answers.length := by
               rw [hnew1, List.length_append]; omega
             rw [hlim] at hr'
-            rcases ihP _ _ _ _ _ hf d m2.user.answers r'
+            rcases ihP _ _ _ _ _ hf hgf d m2.user.answers r'
               (hrest m2 r' _ rfl (Nat.le_trans hmm1 hm.nvar) hr') hok hm.st hlen with hill | hm2
             · exact Or.inl hill
             · right
@@ -654,262 +724,6 @@ theorem ta_succ {k : Nat} (ihP : TPk tmpl max prog F k) (hprog : ∀ c ∈ prog,
             obtain ⟨rfl, rfl⟩ := hresA
             exact ⟨hm.ans, Or.inr (Or.inr (Or.inr ⟨F', c1, c2, ex, co', rfl, hstop⟩)), hm.st,
               Nat.le_trans hmm1 hm.nvar⟩
-
-theorem Forall2.imp_mem {α β : Type} {R S : α → β → Prop} {as : List α} {bs : List β} (h : Forall2 R as bs)
-    (hRS : ∀ a ∈ as, ∀ b, R a b → S a b) : Forall2 S as bs := by
-  induction h with
-  | nil => exact .nil
-  | cons hd _ ih => exact .cons (hRS _ (by simp) _ hd) (ih (fun a ha => hRS a (by simp [ha])))
-
-/-- below a cut parent the levels are at most its level -/
-theorem lev_le_of_drop {lv : Lv} {d : Nat} (h : LvOK lv d) {cp l : Nat} (hcp : lv.lev cp = some l)
-    {e : Nat × Option Nat} (he : e ∈ lv.dropWhile (fun e => e.1 ≠ cp)) {l' : Nat} (hl' : e.2 = some l') : l' ≤ l := by
-  have hmcp := Lv.mem_of_lev hcp
-  have hmono := h.mono
-  have hnd := h.nodup
-  clear hcp h
-  induction lv with
-  | nil => simp at hmcp
-  | cons a lv ih =>
-    by_cases ha : a.1 = cp
-    · simp only [List.dropWhile, ha, ne_eq, not_true_eq_false, decide_false] at he
-      have hacp : a = (cp, some l) := by
-        rcases List.mem_cons.1 hmcp with h | h
-        · exact h.symm
-        · exfalso
-          simp only [List.map_cons, List.nodup_cons] at hnd
-          exact hnd.1 (ha ▸ List.mem_map_of_mem (f := Prod.fst) h)
-      rcases List.mem_cons.1 he with h | h
-      · rw [h, hacp] at hl'
-        simp only [Option.some.injEq] at hl'
-        omega
-      · have := (List.pairwise_cons.1 hmono).1 e h l l' (by rw [hacp]) hl'
-        omega
-    · simp only [List.dropWhile, ha, ne_eq, not_false_eq_true, decide_true] at he
-      have hmcp' : (cp, some l) ∈ lv := by
-        rcases List.mem_cons.1 hmcp with h | h
-        · exact absurd (by rw [← h]) ha
-        · exact h
-      simp only [List.map_cons, List.nodup_cons] at hnd
-      exact ih he hmcp' (List.pairwise_cons.1 hmono).2 hnd.2
-
-theorem tp_down {k : Nat} (h : TPk tmpl max prog F (k + 1)) : TPk tmpl max prog F k := by
-  intro p lv m sig m' hd
-  exact h p lv m sig m' (dfsP_mono (VM.sem F) 0 k (k + 1) (Nat.le_succ k) _ _ _ _ hd)
-
-theorem afterCut_answers (l : Nat) (r : SLD.Res) : (SLD.afterCut l r).answers = r.answers := by
-  unfold SLD.afterCut
-  split <;> rfl
-
-theorem tp_succ {k : Nat} (ihA : TAk tmpl max prog F k) (ihD : TDk tmpl max prog F k)
-    (ihP : TPk tmpl max prog F k) (hprog : ∀ c ∈ prog, clauseOK c = true) :
-    TPk tmpl max prog F (k + 1) := by
-  intro p lv m sig m' hd d ans0 r hspec hok hst hlt
-  cases hspec with
-  | fail hans =>
-    rw [leaf_ok' rfl rfl] at hd
-    simp only [Option.some.injEq, Prod.mk.injEq] at hd
-    obtain ⟨rfl, rfl⟩ := hd
-    exact Or.inr ⟨⟨[], (by show m.user.answers = [] ++ ans0; simpa using hans), .nil⟩,
-      Or.inl ⟨rfl, rfl, by rw [show (tick m).user.answers = m.user.answers from rfl, hans]; exact hlt⟩,
-      stOK_tick hst, Nat.le_refl _⟩
-  | answer hans hrel =>
-    rename_i a q
-    by_cases hc : (a :: ans0).length ≥ max
-    · rw [if_pos hc] at hd
-      rw [leaf_ok' rfl rfl] at hd
-      simp only [Option.some.injEq, Prod.mk.injEq] at hd
-      obtain ⟨rfl, rfl⟩ := hd
-      have h1 : max - ans0.length = 1 := by simp only [List.length_cons] at hc; omega
-      refine Or.inr ⟨⟨[a], (by show m.user.answers = [a] ++ ans0; simpa using hans), .cons hrel .nil⟩,
-        Or.inr (Or.inr (Or.inl ⟨rfl, by simp [h1]⟩)), stOK_tick hst, Nat.le_refl _⟩
-    · rw [if_neg hc] at hd
-      rw [leaf_ok' rfl rfl] at hd
-      simp only [Option.some.injEq, Prod.mk.injEq] at hd
-      obtain ⟨rfl, rfl⟩ := hd
-      have h1 : max - ans0.length ≠ 1 := by simp only [List.length_cons] at hc; omega
-      refine Or.inr ⟨⟨[a], (by show m.user.answers = [a] ++ ans0; simpa using hans), .cons hrel .nil⟩,
-        Or.inl ⟨rfl, by simp [h1], ?_⟩, stOK_tick hst, Nat.le_refl _⟩
-      rw [show (tick m).user.answers = m.user.answers from rfl, hans]
-      simp only [List.length_cons] at hc ⊢
-      omega
-  | err hans =>
-    rename_i F' c1 c2
-    rw [leaf_err' rfl rfl] at hd
-    simp only [Option.some.injEq, Prod.mk.injEq] at hd
-    obtain ⟨rfl, rfl⟩ := hd
-    exact Or.inr ⟨⟨[], (by show m.user.answers = [] ++ ans0; simpa using hans), .nil⟩,
-      Or.inr (Or.inr (Or.inr ⟨F', c1, c2, [], none, rfl, rfl⟩)), stOK_tick hst, Nat.le_refl _⟩
-  | alts hans hid0 hcs hshape hsim hs =>
-    rename_i id cs g g2 K env R q nv n
-    cases cs with
-    | nil =>
-      rw [leaf_ok' rfl rfl] at hd
-      simp only [Option.some.injEq, Prod.mk.injEq] at hd
-      obtain ⟨rfl, rfl⟩ := hd
-      cases n with
-      | zero => rw [List.map_nil, solveAlts_zero] at hs; cases hs
-      | succ n' =>
-        rw [List.map_nil, solveAlts_nil] at hs
-        simp only [SLD.failed, Option.some.injEq] at hs
-        subst hs
-        exact Or.inr ⟨⟨[], (by show m.user.answers = [] ++ ans0; simpa using hans), .nil⟩,
-          Or.inl ⟨rfl, rfl, by rw [show (tick m).user.answers = m.user.answers from rfl, hans]; exact hlt⟩,
-          stOK_tick hst, Nat.le_refl _⟩
-    | cons c cs' =>
-      by_cases hid : (id ≠ 0 ∧ (lv.map Prod.fst).contains id)
-      · rw [ill_id' rfl hid] at hd
-        simp only [Option.some.injEq, Prod.mk.injEq] at hd
-        exact Or.inl hd.1.symm
-      · rw [nocut' rfl hid rfl] at hd
-        have hf : afterChild ({ ({ id := id, delayed := (c :: cs').map (fun c => Thunk.clause (clauseOf c) (argList g) K env id) } : Pr) with cutParent := none }) =
-            ({ id := id, delayed := cs'.map (fun c => Thunk.clause (clauseOf c) (argList g) K env id) } : Pr) := by
-          simp [afterChild]
-        rw [hf] at hd
-        simp only [List.map_cons] at hd
-        have hidn : id ∉ lv.map Prod.fst := by
-          intro hmem
-          exact hid ⟨hid0, by simpa using hmem⟩
-        rcases ihA c cs' id g g2 K env R q nv n d r lv (tick m) sig m' ans0 hd hans hid0 hidn hcs hshape hsim hs
-          hok (stOK_tick hst) hlt with hill | hm
-        · exact Or.inl hill
-        · exact Or.inr (hm.from (Nat.le_refl _))
-  | direct hans hid0 hcode hvars hsim hs =>
-    rename_i id ct K env R q nv n
-    by_cases hid : (id ≠ 0 ∧ (lv.map Prod.fst).contains id)
-    · rw [ill_id' rfl hid] at hd
-      simp only [Option.some.injEq, Prod.mk.injEq] at hd
-      exact Or.inl hd.1.symm
-    · rw [nocut' rfl hid rfl] at hd
-      have hf : afterChild ({ ({ id := id, delayed := [Thunk.clause ct [] K env id] } : Pr) with cutParent := none }) =
-          ({ id := id, delayed := [] } : Pr) := by
-        simp [afterChild]
-      rw [hf] at hd
-      have hidn : id ∉ lv.map Prod.fst := by
-        intro hmem
-        exact hid ⟨hid0, by simpa using hmem⟩
-      rcases ihD ct id K env R q nv n d r lv (tick m) sig m' ans0 hd hans hid0 hidn hcode hvars hsim hs
-        hok (stOK_tick hst) hlt with hill | hm
-      · exact Or.inl hill
-      · exact Or.inr (hm.from (Nat.le_refl _))
-  | cut hans hlcp hN hW hcg hgr hco hq hbnd hs =>
-    rename_i pc vars kk cp l env R q nv n r' N σ π D G'
-    -- the cut: everything created since `cp` was called is discarded
-    have hmem : (lv.map Prod.fst).contains cp = true := by
-      simpa using mem_ids_of_lev hlcp
-    rw [cut' (t := .afterCut pc vars kk [] [] env cp) (ts := []) rfl (by simp [cutPromise]) rfl hmem] at hd
-    have hf : afterChild ({ cutPromise pc vars kk env cp with cutParent := none }) = ({} : Pr) := by
-      simp [afterChild, cutPromise]
-    rw [hf] at hd
-    simp only [Option.map_eq_some_iff] at hd
-    obtain ⟨⟨sigA, mA⟩, hda, hpair⟩ := hd
-    simp only [Prod.mk.injEq] at hpair
-    obtain ⟨rfl, rfl⟩ := hpair
-    -- the path below the cut
-    let lv' : Lv := lv.dropWhile (fun e => e.1 ≠ cp)
-    have hsub : lv'.Sublist lv := List.dropWhile_sublist _
-    have hok' : LvOK lv' d := hok.drop cp
-    have hlive' : lv'.map Prod.fst = (lv.map Prod.fst).dropWhile (· ≠ cp) := map_fst_dropWhile cp lv
-    rw [← hlive'] at hda
-    have hin : ∀ it ∈ G', isCut it → ∀ l', lv.lev it.2 = some l' → lv'.lev it.2 = some l' := by
-      intro it hit hc l' hl'
-      have := mem_drop_of_le hok hlcp hl' (hbnd it hit hc l' hl')
-      exact Lv.lev_of_mem hok'.nodup this
-    have hgr' : GRel lv' σ π D G' R := by
-      refine Forall2.imp_mem hgr ?_
-      rintro it hit fr ⟨hg, l0, hfr, hl0⟩
-      exact ⟨hg, l0, hfr, fun hc => hin it hit hc l0 (hl0 hc)⟩
-    have hco' : CutsOK lv' G' := by
-      refine ⟨fun it hit hc => ?_, ?_⟩
-      · obtain ⟨l0, hl0⟩ := hco.1 it hit hc
-        exact ⟨l0, hin it hit hc l0 hl0⟩
-      · refine hco.2.imp ?_
-        intro a b hab hca hcb la lb hla hlb
-        exact hab hca hcb la lb (lev_of_sub hsub hok.nodup hla) (lev_of_sub hsub hok.nodup hlb)
-    cases k with
-    | zero => simp [dfsAlts] at hda
-    | succ k0 =>
-    have ihP0 : TPk tmpl max prog F k0 := tp_down ihP
-    cases hev : evalThunk F (Thunk.afterCut pc vars kk [] [] env cp) (tick m) with
-    | none => rw [dfsAlts_thunk_none (sem := VM.sem F) (by exact hev)] at hda; cases hda
-    | some pr =>
-      obtain ⟨q0, m1⟩ := pr
-      have hcont : applyCont F (.exec pc vars cp kk) env (tick m) = some (q0, m1) := by
-        cases F with
-        | zero => simp [evalThunk] at hev
-        | succ F' =>
-          rw [continuation_resumes]
-          rw [evalThunk] at hev
-          exact hev
-      subst hans
-      obtain ⟨hspec, hst1, hnv1⟩ := cont_run tmpl max prog hprog F _ env (tick m) q0 m1 hcont lv' R q nv
-        ⟨N, σ, π, D, G', hN, hW, hcg, hgr', hco', hq, trivial⟩ (stOK_tick hst) n d r' hs
-      have hlv1 : lv'.map Prod.fst = push ({} : Pr).id (lv'.map Prod.fst) := by simp [push]
-      rcases after_child ihP0 hda (by exact hev) hlv1 hspec hok' hst1 hlt rfl with
-        hill | ⟨m2, hm, hf2⟩ | ⟨sig1, m2, hm, hne, hresA⟩
-      · subst hill
-        exact Or.inl rfl
-      · right
-        cases k0 with
-        | zero => simp [dfsP] at hf2
-        | succ k' =>
-          rw [leaf_ok' rfl rfl] at hf2
-          simp only [Option.some.injEq, Prod.mk.injEq] at hf2
-          obtain ⟨rfl, rfl⟩ := hf2
-          rcases hm.stop with ⟨_, h2, h3⟩ | ⟨_, _, h1, _⟩ | ⟨h1, _⟩ | ⟨_, _, _, _, _, h1, _⟩
-          · refine ⟨by rw [afterCut_answers]; exact hm.ans, Or.inr (Or.inl ⟨cp, l, rfl, ?_, hlcp, h3⟩), hm.st, Nat.le_trans hnv1 hm.nvar⟩
-            simp [SLD.afterCut, h2]
-          · cases h1
-          · cases h1
-          · cases h1
-      · right
-        rcases hm.stop with ⟨h1, _, _⟩ | ⟨c', l', h1, h2, h3, h4⟩ | ⟨h1, h2⟩ | ⟨F', c1, c2, ex, co, h1, h2⟩
-        · exact absurd h1 hne
-        · subst h1
-          have hmem' := Lv.mem_of_lev h3
-          have hc0 : c' ≠ 0 := hok'.nz _ hmem'
-          rw [absorb_cut_ne m2 hc0] at hresA
-          simp only [Prod.mk.injEq] at hresA
-          obtain ⟨rfl, rfl⟩ := hresA
-          have hle : l' ≤ l := lev_le_of_drop hok hlcp hmem' rfl
-          refine ⟨by rw [afterCut_answers]; exact hm.ans,
-            Or.inr (Or.inl ⟨c', l', rfl, ?_, lev_of_sub hsub hok.nodup h3, h4⟩), hm.st, Nat.le_trans hnv1 hm.nvar⟩
-          simp [SLD.afterCut, h2, Nat.min_eq_left hle]
-        · subst h1
-          rw [absorb_found] at hresA
-          simp only [Prod.mk.injEq] at hresA
-          obtain ⟨rfl, rfl⟩ := hresA
-          refine ⟨by rw [afterCut_answers]; exact hm.ans, Or.inr (Or.inr (Or.inl ⟨rfl, ?_⟩)), hm.st, Nat.le_trans hnv1 hm.nvar⟩
-          simp [SLD.afterCut, h2]
-        · subst h1
-          obtain ⟨co', hco''⟩ := absorb_raised 0 (.exc (errT F' c1)) co m2
-          rw [hco''] at hresA
-          simp only [Prod.mk.injEq] at hresA
-          obtain ⟨rfl, rfl⟩ := hresA
-          refine ⟨by rw [afterCut_answers]; exact hm.ans,
-            Or.inr (Or.inr (Or.inr ⟨F', c1, c2, ex, ?_⟩)), hm.st, Nat.le_trans hnv1 hm.nvar⟩
-          cases co' with
-          | none => exact ⟨some cp, rfl, by simp [SLD.afterCut, h2]⟩
-          | some c0 => exact ⟨some c0, rfl, by simp [SLD.afterCut, h2]⟩
-
-theorem tp_zero : TPk tmpl max prog F 0 := by
-  intro p lv m sig m' hd
-  simp [dfsP] at hd
-
-theorem ta_zero : TAk tmpl max prog F 0 := by
-  intro c cs id g g2 K env R q nv n d r lv m sig m' ans0 hda
-  simp [dfsAlts] at hda
-
-theorem td_zero : TDk tmpl max prog F 0 := by
-  intro ct id K env R q nv n d r lv m sig m' ans0 hda
-  simp [dfsAlts] at hda
-
-theorem t_all (hprog : ∀ c ∈ prog, clauseOK c = true) : ∀ k : Nat,
-    TPk tmpl max prog F k ∧ TAk tmpl max prog F k ∧ TDk tmpl max prog F k
-  | 0 => ⟨tp_zero, ta_zero, td_zero⟩
-  | k + 1 =>
-    have ih := t_all hprog k
-    ⟨tp_succ ih.2.1 ih.2.2 ih.1 hprog, ta_succ ih.1 hprog, td_succ ih.1 hprog⟩
 
 end
 
